@@ -25,6 +25,11 @@ def opsTm : List (String × Rd (List String)) := [
   ("tm.estld", do let v ← bits 80; let r ← bits 80; pure [b01 (finiteEst finite80 v r)]),
   -- the same predicates on literals written at the call site: the line carries the index of the literal (used by the
   -- harness) and its bit pattern (used here)
+  ("tm.stokes", do let l ← listOf 4 (bits 64); pure [b01 (finiteAll finite64 l)]),
+  ("tm.stokesf", do let l ← listOf 4 (bits 32); pure [b01 (finiteAll finite32 l)]),
+  ("tm.mat23", do let l ← listOf 6 (bits 64); pure [b01 (finiteAll finite64 l)]),
+  ("tm.mat22", do let l ← listOf 4 (bits 64); pure [b01 (finiteAll finite64 l)]),
+  ("tm.vecvec", do let l ← listOf 4 (bits 64); pure [b01 (finiteAll finite64 l)]),
   ("tm.kd", do let _ ← nat; let x ← bits 64; pure [b01 (finite64 x), b01 (signbit64 x)]),
   ("tm.kf", do let _ ← nat; let x ← bits 32; pure [b01 (finite32 x), b01 (signbit32 x)]),
   ("tm.kld", do let _ ← nat; let x ← bits 80; pure [b01 (finite80 x), b01 (signbit80 x)]),
